@@ -261,6 +261,20 @@ class C08(Property):
             self.deltas_tile(ctx, c)
             ctx.count("deltas-tile")
             ctx.case(c, nontrivial=r0 * r1 > 1)
+        # the two hypotheses of `tiled_potential` on the real code: (hT) fft2 of a tiled array lives on the sub-lattice with
+        # factor R0*R1; (hM) the symbol f/sinc sampled on the supercell grid equals the unit-cell symbol on the sub-lattice
+        from abtem.core.fft import fft2
+        from abtem.integrals import ScatteringFactorProjectionIntegrals, sinc
+
+        for _ in range(ctx.n(8, 80)):
+            n0, n1, r0, r1 = rng.choice([6, 8, 12]), rng.choice([6, 8, 10]), rng.randint(1, 3), rng.randint(1, 3)
+            smp = (rng.choice([0.25, 0.3]), rng.choice([0.2, 0.25]))
+            sym = rng.choice(["Si", "C", "Au"])
+            c = dict(oracle="tiled-hypotheses", n=[n0, n1], reps=[r0, r1], sampling=list(smp), symbol=sym,
+                     parametrization=rng.choice(["lobato", "kirkland", "peng"]), seed=rng.randint(0, 10 ** 6))
+            self.tiled_hypotheses(ctx, c)
+            ctx.count("tiled-hypotheses")
+            ctx.case(c, nontrivial=r0 * r1 > 1)
         kinds = ["shift", "repeat", "subpixel"]
         for i in range(ctx.n(36, 300)):
             c = gen_case(ctx, kinds[i % 3])
@@ -283,7 +297,31 @@ class C08(Property):
             ctx.violation("superpose-deltas-supercell-ne-tile", c, {"what": "delta array of the repeated cell differs from the tiled delta array",
                                                                    "max_abs": float(np.abs(big - np.tile(unit, (r0, r1))).max())})
 
+    def tiled_hypotheses(self, ctx: Ctx, c):
+        from abtem.core.fft import fft2
+        from abtem.integrals import ScatteringFactorProjectionIntegrals, sinc
+
+        (n0, n1), (r0, r1), smp = c["n"], c["reps"], tuple(c["sampling"])
+        x = np.random.default_rng(c["seed"]).standard_normal((n0, n1)).astype(np.complex64)
+        big = np.asarray(fft2(np.tile(x, (r0, r1)).copy()))
+        small = np.asarray(fft2(x.copy()))
+        exp = np.zeros_like(big)
+        exp[::r0, ::r1] = r0 * r1 * small
+        d = float(np.abs(big - exp).max() / np.abs(exp).max())
+        if not d <= 2e-5:
+            ctx.violation("fft2-of-tiled-array-not-on-sublattice", c, {"what": "fft2(tile(x)) != R0 R1 fft2(x) on the sub-lattice / 0 elsewhere", "rel": d})
+        integ = ScatteringFactorProjectionIntegrals(c["parametrization"])
+        f_s = np.asarray(integ.get_scattering_factor(c["symbol"], (n0, n1), smp, "cpu")) / np.asarray(sinc((n0, n1), smp, "cpu"))
+        f_b = np.asarray(integ.get_scattering_factor(c["symbol"], (n0 * r0, n1 * r1), smp, "cpu")) / np.asarray(sinc((n0 * r0, n1 * r1), smp, "cpu"))
+        # a unit mass on N pixels has spectrum of size 1; the potential scale of the big grid carries the pixel count through ifft2's 1/N
+        d2 = float(np.abs(f_b[::r0, ::r1] - f_s).max() / np.abs(f_s).max())
+        if not d2 <= 2e-5:
+            ctx.violation("scattering-symbol-differs-on-sublattice", c,
+                          {"what": "f/sinc sampled on the supercell grid differs from the unit-cell symbol at the same frequencies", "rel": d2})
+
     def replay(self, ctx: Ctx, case):
+        if case.get("oracle") == "tiled-hypotheses":
+            return self.tiled_hypotheses(ctx, case)
         if case.get("oracle") == "deltas-tile":
             return self.deltas_tile(ctx, case)
         oracle(ctx, case)
